@@ -48,6 +48,10 @@ func c06Templates(r *core.Rng) string { return core.Pick(r, []string{"testify", 
 func genC06World(r *core.Rng) (*world.Project, []string) {
 	var feats []string
 	o := world.GenOpts{MinPkgs: 2, MaxPkgs: 5, MaxIfacesPerPkg: 3, AllowXRef: true, DupNames: r.Chance(1, 4)}
+	recursiveMode := r.Chance(1, 2)
+	if recursiveMode {
+		o.Layout = core.Pick(r, world.NestedLayouts)
+	}
 	pkgs := world.GenPackages(r, o)
 	if o.DupNames {
 		feats = append(feats, "same-interface-names-across-packages")
@@ -96,7 +100,6 @@ func genC06World(r *core.Rng) (*world.Project, []string) {
 		}
 	}
 	pk := cfg.Sub("packages")
-	recursiveMode := r.Chance(1, 2)
 	dirs := map[string]bool{}
 	for _, q := range pkgs {
 		dirs[q.Dir] = true
@@ -118,7 +121,9 @@ func genC06World(r *core.Rng) (*world.Project, []string) {
 			e := pk.Sub("example.com/w/" + q.Dir)
 			c := e.Sub("config")
 			c.Set("all", true)
-			if hasChild {
+			if hasChild || r.Chance(1, 2) {
+				// also on packages without sub-packages: legal, and it puts unrelated entries
+				// between nested ones in the list of recursive packages
 				c.Set("recursive", true)
 			}
 			// a distinguishing setting per listed level
